@@ -169,6 +169,11 @@ pub fn cyclic_universe(r: &mut Rng) -> (Universe, Prob) {
     (u, Prob { reqs: vec![Req::Single(root)], cons: vec![], soft: vec![] })
 }
 
+/// Everything C04 does for one case, used for the hand-written corpus too.
+fn exercise(c: &SolverCase, ctx: &mut Ctx) {
+    C04.check(c, ctx)
+}
+
 impl Monitor for C04 {
     type Case = SolverCase;
     fn id(&self) -> &'static str {
@@ -188,6 +193,8 @@ impl Monitor for C04 {
         let pick_cyclic = r.chance(3, 20);
         let (name, (u, p)) = if pick_cyclic {
             ("cyclic", cyclic_universe(r))
+        } else if r.chance(1, 10) {
+            ("soft-backjump", gener::soft_backjump(r))
         } else {
             (name, gener::generate(r, &family(name)))
         };
@@ -197,11 +204,26 @@ impl Monitor for C04 {
         }
         SolverCase { family: name.into(), u, p, runs }
     }
+    fn fixed(&self, _tier: Tier, shard: u64, _nshards: u64, ctx: &mut Ctx) {
+        if shard != 0 {
+            return;
+        }
+        let mut r = Rng::new(7);
+        for e in crate::corpus::all() {
+            let case = SolverCase { family: format!("corpus: {}", e.name), u: e.u, p: e.p, runs: vec![SolveOpts::default(), async_opts(&mut r)] };
+            let before = ctx.pending.len();
+            exercise(&case, ctx);
+            for v in ctx.pending.iter_mut().skip(before) {
+                v.1 = format!("corpus case '{}': {}", case.family, v.1);
+            }
+            ctx.rep.count("corpus-cases");
+        }
+    }
     fn check(&self, c: &SolverCase, ctx: &mut Ctx) {
         let u = Rc::new(c.u.clone());
         let h = u.content_hash(&c.p);
         ctx.rep.distinct.insert(h);
-        ctx.rep.count(&format!("family:{}", c.family));
+        ctx.rep.count(&format!("family:{}", c.family.split(':').next().unwrap_or("")));
         let nfeat = count_features(&u, &c.p, ctx.rep);
         if nfeat >= 2 || c.family == "cyclic" {
             ctx.rep.nontrivial.insert(h);
